@@ -7,10 +7,10 @@ PROPS="$@"
 [ -z "$PROPS" ] && PROPS=$(python3 -c "import json,sys; print(json.load(open('$D/meta.json'))['property'])")
 cd /verif
 git -C /repo diff --quiet || { echo "/repo not clean"; exit 3; }
-git -C /repo apply "$PWD/$D/patch.diff" || { echo "patch does not apply"; exit 3; }
+git -C /repo apply --3way "$PWD/$D/patch.diff" 2>/dev/null || git -C /repo apply "$PWD/$D/patch.diff" || { echo "patch does not apply"; exit 3; }
 for P in $PROPS; do
   ./check "$P" --tier quick > "/tmp/seeded_$$.log" 2>&1; rc=$?
   echo "== $D $P rc=$rc"; grep -E "VIOLATION|KNOWN-FINDING|^\[$P\]|INFRA" "/tmp/seeded_$$.log" | cut -c1-300
 done
 rm -f "/tmp/seeded_$$.log"
-git -C /repo checkout -- .
+git -C /repo checkout -q HEAD -- .
